@@ -13,6 +13,8 @@ case kinds
   ns  : like rt, but the live frames are observed WITH their namespaces (dunder keys of f_globals,
         __traceback_hide__ of f_locals) and so are the stand-in frames of the record
   slots : dir() of a real frame / code / traceback object
+  nsput : ExceptionInfo from a live traceback some of whose namespace values do not pickle (frame kinds
+        18-20, known finding F-C12-2); observed: what the pool's pickler raises on the record
 
 The call chains (pat) run over FUNCS: 0-3 ordinary module-level functions, 4.. frames of code run
 by exec/eval in fresh or odd globals, lambdas, generator expressions, generators, class bodies,
@@ -23,6 +25,7 @@ Values are JSON-encoded: {"i":n} {"s":str} {"n":0} {"b":bool} {"t":[..]} {"l":[.
 """
 import json
 import pickle
+import re
 import sys
 import traceback
 
@@ -258,14 +261,22 @@ _MODULE_CODE = compile("if i >= len(p):\n    raise exc\nr = FUNCS[p[i]](p, i + 1
 
 
 
-def f18(p, i, exc):                    # NOT generated (docs/C12.md, candidate finding F-C12-2): the hide
-    __traceback_hide__ = lambda: True  # noqa -- marker is an object that does not pickle
+# ---- known finding F-C12-2: a namespace value the stand-in copies does not pickle (wl / nsput only)
+def f18(p, i, exc):                    # the hide marker is an object that does not pickle
+    __traceback_hide__ = lambda: True  # noqa
     if i >= len(p):
         raise exc
     return FUNCS[p[i]](p, i + 1, exc)
 
 
-FUNCS += [f4, f5, f6, f7, f8, f9, f10, f11, f12, f13, f14, f15, f16, f17, f18]
+def _unp_globals():
+    return {'__name__': 'gen.rules', '__file__': (lambda: 0)}
+
+
+f19 = _exec_step(_unp_globals(), '<rules>')                        # __file__ does not pickle
+f20 = _exec_step({'__name__': Unp(20)}, '<unp-name>')             # __name__ does not pickle
+
+FUNCS += [f4, f5, f6, f7, f8, f9, f10, f11, f12, f13, f14, f15, f16, f17, f18, f19, f20]
 
 
 def inf(n):
@@ -471,14 +482,30 @@ def run_mee(c):
 
 
 # ------------------------------------------------------------ namespaces
-def gval(v, T):
-    """a namespace value: str / None / anything else (by a short repr)"""
+_ADDR = re.compile(r' at 0x[0-9a-fA-F]+')
+_PICKLES = {}
+
+
+def gval(v, T, key=None):
+    """a namespace value: str / None / another object by a short repr (addresses removed) / an object
+    whose pickling raises (by the repr of what the pool's pickler raises on the value alone)"""
     if isinstance(v, str):
         return ['s', T.s(v)]
     if v is None:
         return ['n']
-    r = repr(v)
-    return ['o', T.s(r if len(r) <= 40 else r[:37] + '...')]
+    r = _ADDR.sub('', repr(v))
+    r = r if len(r) <= 40 else r[:37] + '...'
+    if key == '__builtins__':
+        return ['o', T.s('<builtins>')]
+    ck = id(v)
+    if ck not in _PICKLES:
+        try:
+            ForkingPickler.dumps(v)
+            _PICKLES[ck] = (v, None)
+        except Exception as exc:      # noqa
+            _PICKLES[ck] = (v, repr(exc))
+    err = _PICKLES[ck][1]
+    return ['u', T.s(err)] if err is not None else ['o', T.s(r)]
 
 
 def live_nodes(tb, T):
@@ -486,7 +513,7 @@ def live_nodes(tb, T):
     while tb is not None:
         fr = tb.tb_frame
         code = fr.f_code
-        g = [[T.s(k), gval(v, T)] for k, v in fr.f_globals.items()
+        g = [[T.s(k), gval(v, T, k)] for k, v in fr.f_globals.items()
              if isinstance(k, str) and k.startswith('__') and k.endswith('__')]
         loc = fr.f_locals
         lo = [[T.s('__traceback_hide__'), gval(loc['__traceback_hide__'], T)]] \
@@ -512,6 +539,7 @@ def standin_nodes(tb, T):
 
 def run_ns(c):
     T = Tables()
+    _PICKLES.clear()
     try:
         raise_through(c['pat'], make_exc(c['exc']))
     except BaseException:
@@ -539,6 +567,42 @@ def run_ns(c):
         out['fmt'] = fmt_check(e, frames_of(e.tb))
     except BaseException as exc:          # noqa
         out['error'] = 'round %d: %s: %s' % (len(out['chains']), type(exc).__name__, exc)
+    out['strs'] = T.strs
+    return out
+
+
+def live_unp(tb, T):
+    """every unpicklable dunder global / hide local of the live chain: [frame index, 'g'|'l', key, err id]"""
+    out = []
+    for idx, node in enumerate(live_nodes(tb, T)):
+        out += [[idx, 'g', T.strs[kv[0]], kv[1][1]] for kv in node[3] if kv[1][0] == 'u']
+        out += [[idx, 'l', T.strs[kv[0]], kv[1][1]] for kv in node[4] if kv[1][0] == 'u']
+    return out
+
+
+def run_nsput(c):
+    T = Tables()
+    _PICKLES.clear()
+    try:
+        raise_through(c['pat'], make_exc(c['exc']))
+    except BaseException:
+        ei = sys.exc_info()
+        live = live_nodes(ei[2], T)
+        build_error = None
+        try:
+            e = ExceptionInfo()
+        except BaseException as exc:      # noqa
+            build_error = '%s: %s' % (type(exc).__name__, exc)
+        del ei
+    out = dict(reclimit=RECLIMIT_AT_IMPORT, dmf=einfo_mod.DEFAULT_MAX_FRAMES, live=live,
+               live_len=len(live), err=None)
+    if build_error:
+        out['build_error'] = build_error
+    else:
+        try:
+            ForkingPickler.dumps(e)
+        except Exception as exc:          # noqa
+            out['err'] = T.s(repr(exc))
     out['strs'] = T.strs
     return out
 
@@ -622,6 +686,9 @@ class OutQ(FakeQ):
                     o['text'] = self.T.t(''.join(traceback.format_exception(
                         type(inner), inner, inner.__traceback__)))
                     o['live_exc'] = exc_desc(inner)
+                    # independent of the record: which namespace values of the live frames do not pickle
+                    o['live_unp'] = live_unp(inner.__traceback__, self.T)
+                    o['put_n'] = n
                 elif 'seen' in o:
                     # the record made by the `except Exception` handler around the first put
                     o['ptb'] = rle_of(frames_of(self.last_exc.__traceback__), self.T)
@@ -675,6 +742,7 @@ class OutQ(FakeQ):
 
 def run_wl(c):
     T = Tables()
+    _PICKLES.clear()
     outq = OutQ(c['env'], T)
     w = Worker(FakeQ(10), outq, synq=None, maxtasks=c['maxtasks'])
     script = list(c['script'])
@@ -704,7 +772,7 @@ def run_wl(c):
 
 def run_case(c):
     return {'rt': run_rt, 'tb': run_tb, 'mee': run_mee, 'wl': run_wl, 'ns': run_ns,
-            'slots': run_slots}[c['kind']](c)
+            'slots': run_slots, 'nsput': run_nsput}[c['kind']](c)
 
 
 if __name__ == '__main__':
